@@ -31,16 +31,25 @@ MODULES = ["m", "m.a", "m.ab", "n"]
 def gen_program(rng, nthreads=None, maxops=None, kinds=None):
     nthreads = nthreads or rng.range(2, 3)
     nh = rng.range(1, 3)
-    kinds = kinds or ["log", "log", "log", "add", "remove", "remove", "removeall", "level", "enable", "disable"]
+    kinds = kinds or ["log", "log", "log", "add", "remove", "remove", "removeall", "level", "newlevel", "enable",
+                      "disable"]
     threads = []
+    custom = []          # run-time levels created by this program (each at most once)
     for t in range(nthreads):
         ops = []
         for _ in range(rng.range(1, maxops or 3)):
             k = rng.choice(kinds)
             if k == "log":
-                ops.append(["log", rng.choice(MODULES), rng.choice(["INFO", "INFO", "DEBUG", "ERROR"])])
+                lv = rng.choice(["INFO", "INFO", "DEBUG", "ERROR"])
+                if custom and rng.chance(50):
+                    lv = rng.choice(custom)
+                ops.append(["log", rng.choice(MODULES), lv])
             elif k == "add":
-                ops.append(["add", rng.choice(["DEBUG", "INFO"])])
+                ops.append(["add", rng.choice(["DEBUG", "INFO"]) + rng.choice(["", "", ":c"])])
+            elif k == "newlevel":
+                name = "L%d" % len(custom)
+                custom.append(name)
+                ops.append(["newlevel", name, rng.choice([15, 25, 45]), rng.choice(["<red>", "<blue><bold>", ""])])
             elif k == "remove":
                 ops.append(["remove", rng.below(nh + 1)])
             elif k == "removeall":
@@ -50,8 +59,35 @@ def gen_program(rng, nthreads=None, maxops=None, kinds=None):
             else:
                 ops.append([k, rng.choice(["m", "m.a", "", "n"])])
         threads.append(ops)
-    handlers = [rng.choice(["DEBUG", "INFO", "INFO"]) for _ in range(nh)]
+    # a level created by one thread is also logged at by the others (possibly before it exists)
+    for ops in threads:
+        for op in ops:
+            if op[0] == "log" and custom and rng.chance(25):
+                op[2] = rng.choice(custom)
+    handlers = [rng.choice(["DEBUG", "INFO", "INFO"]) + rng.choice(["", "", ":c"]) for _ in range(nh)]
     return {"handlers": handlers, "threads": threads}
+
+
+def hspec(spec):
+    """handler spec 'LEVEL' or 'LEVEL:c' (colourised, static format with a <level> tag)"""
+    lvl, _, c = spec.partition(":")
+    return lvl, c == "c"
+
+
+def add_handler(logger, snk, spec):
+    lvl, col = hspec(spec)
+    return logger.add(snk, level=lvl, format="<level>{message}</level>" if col else "{message}", colorize=col,
+                      catch=False)
+
+
+def levelno(prog, name):
+    if name in LEVELNO:
+        return LEVELNO[name]
+    for ops in prog["threads"]:
+        for op in ops:
+            if op[0] == "newlevel" and op[1] == name:
+                return op[2]
+    raise KeyError(name)
 
 
 LEVELNO = {"TRACE": 5, "DEBUG": 10, "INFO": 20, "SUCCESS": 25, "WARNING": 30, "ERROR": 40, "CRITICAL": 50}
@@ -98,7 +134,7 @@ class Run:
             ids = []
             for i, lvl in enumerate(prog["handlers"]):
                 snk = sched.TracingSink("s%d" % i)
-                hid = logger.add(snk, level=lvl, format="{message}", colorize=False, catch=False)
+                hid = add_handler(logger, snk, lvl)
                 sinks[hid] = snk
                 ids.append(hid)
             self.initial_ids = list(ids)
@@ -115,10 +151,18 @@ class Run:
                         res = None
                         try:
                             if op[0] == "log":
-                                logfns[op[1]](op[2], "%s-%d" % (tn, j))
+                                try:
+                                    logfns[op[1]](op[2], "%s-%d" % (tn, j))
+                                except ValueError as e:
+                                    # documented outcome of logging at a level that does not exist (yet)
+                                    if op[2] in LEVELNO or "does not exist" not in str(e):
+                                        raise
+                                    res = "ValueError"
+                            elif op[0] == "newlevel":
+                                logger.level(op[1], no=op[2], color=op[3])
                             elif op[0] == "add":
                                 snk = sched.TracingSink("s+%s%d" % (tn, j))
-                                hid = logger.add(snk, level=op[1], format="{message}", colorize=False, catch=False)
+                                hid = add_handler(logger, snk, op[1])
                                 sinks[hid] = snk
                                 added.append(hid)
                                 res = hid
@@ -221,20 +265,46 @@ def monitors(run):
                     break
         if hid not in run.final_handlers and snk.stops != 1 and not s.errors:
             bad.append("handler %d was unregistered but stop() ran %d times" % (hid, snk.stops))
-    # exactly once for stable handlers, from modules no enable/disable in the program can affect
-    touched = [op[1] for ops in prog["threads"] for op in ops if op[0] in ("enable", "disable")]
-
-    def affected(mod):
-        return any(t == "" or mod == t or mod.startswith(t + ".") for t in touched)
-
+    # exactly once for stable handlers when the activation status of the module is determined (every enable/disable
+    # naming it or a parent returned before the call began): delivered iff enabled; levels created at run time
     add_ret = {}
     for tn, j, op, inv, ret, res in run.ops:
         if op[0] == "add" and isinstance(res, int):
             add_ret[res] = (ret, op[1])
+    acts = [(ret, inv, op) for tn, j, op, inv, ret, res in run.ops if op[0] in ("enable", "disable")]
+    created = {op[1]: (inv, ret) for tn, j, op, inv, ret, res in run.ops if op[0] == "newlevel"}
+
+    def determined_status(mod, inv, ret):
+        """True/False when the enable/disable calls naming mod or a parent all returned, one after the other,
+        before the log call began (the status the call must observe); None when some change overlaps it"""
+        rel = [(r, i, o) for (r, i, o) in acts if o[1] == "" or mod == o[1] or mod.startswith(o[1] + ".")]
+        if not rel:
+            return True
+        if any(not (r < inv) for (r, i, o) in rel):
+            return None
+        rel.sort()
+        if not all(rel[k][0] < rel[k + 1][1] for k in range(len(rel) - 1)):
+            return None
+        return _spec_enabled([(o[1], o[0] == "enable") for r, i, o in rel], mod)
+
     for tn, j, op, inv, ret, res in run.ops:
-        if op[0] != "log" or affected(op[1]):
+        if op[0] != "log":
             continue
         msg = "%s-%d" % (tn, j)
+        if op[2] in created:
+            cinv, cret = created[op[2]]
+            if res == "ValueError":
+                if cret < inv:
+                    bad.append("%s: logging at level %r raised 'does not exist' although level() had returned before the call"
+                               % (msg, op[2]))
+                if any(msg in snk.items for snk in run.sinks.values()):
+                    bad.append("message %s raised ValueError but was delivered" % msg)
+                continue
+            if ret < cinv and any(msg in snk.items for snk in run.sinks.values()):
+                bad.append("message %s was delivered at level %r before that level was created" % (msg, op[2]))
+        status = determined_status(op[1], inv, ret)
+        if status is None:
+            continue
         for hid, snk in run.sinks.items():
             if hid in run.initial_ids:
                 lvl = prog["handlers"][run.initial_ids.index(hid)]
@@ -242,41 +312,18 @@ def monitors(run):
             else:
                 registered_before = hid in add_ret and add_ret[hid][0] < inv
                 lvl = add_ret.get(hid, (0, "INFO"))[1]
-            admits = LEVELNO[lvl] <= LEVELNO[op[2]]
+            admits = LEVELNO[hspec(lvl)[0]] <= levelno(prog, op[2])
             stable = registered_before and (hid not in remove_invoked or remove_invoked[hid] > ret)
             n = snk.items.count(msg)
+            if not status:
+                if n != 0:
+                    bad.append("message %s from module %r delivered although disable() had returned before the call"
+                               % (msg, op[1]))
+                continue
             if stable and admits and n != 1:
                 bad.append("message %s delivered %d times to stable handler %d" % (msg, n, hid))
             if not admits and n != 0:
                 bad.append("message %s (level %s) delivered to handler %d with threshold %s" % (msg, op[2], hid, lvl))
-    # activation visible after return
-    acts = [(ret, inv, op) for tn, j, op, inv, ret, res in run.ops if op[0] in ("enable", "disable")]
-    for tn, j, op, inv, ret, res in run.ops:
-        if op[0] != "log":
-            continue
-        mod = op[1]
-        rel = [(r, i, o) for (r, i, o) in acts if o[1] == "" or mod == o[1] or mod.startswith(o[1] + ".")]
-        if not rel:
-            continue
-        before = [(r, i, o) for (r, i, o) in rel if r < inv]         # returned before the log began
-        overlapping = [(r, i, o) for (r, i, o) in rel if not (r < inv) and i < ret]
-        if overlapping or not before:
-            continue
-        # all relevant changes finished before the call: the status is determined if they were sequential
-        before.sort()
-        seq = all(before[k][0] < before[k + 1][1] for k in range(len(before) - 1))
-        if not seq:
-            continue
-        # closest-parent / last-call semantics = replay sequentially
-        status = True
-        rules = []
-        for r, i, o in before:
-            rules.append((o[1], o[0] == "enable"))
-        status = _spec_enabled(rules, mod)
-        msg = "%s-%d" % (tn, j)
-        got = any(msg in snk.items for snk in run.sinks.values())
-        if not status and got:
-            bad.append("message %s from module %r delivered although disable() had returned before the call" % (msg, mod))
     return bad
 
 
@@ -379,6 +426,25 @@ def run(ctx):
             prog["threads"].append([["log", mod, "INFO"]])
         dfs_schedules(prog, bound=2, limit=ctx.n(60, 600),
                       on_run=lambda r, pre_, prog=prog: judge(r, pre_, prog, "dfs-activation"))
+    # level-table races: a level created at run time against a log at that level, and against add() of a handler
+    # that pre-colours its format per level (colourised, static format)
+    for li in range(ctx.n(6, 30) * boost):
+        r0 = rng.fork("lvl%d" % li)
+        hs = [r0.choice(["DEBUG:c", "DEBUG:c", "INFO:c", "DEBUG"]) for _ in range(r0.range(1, 2))]
+        mk = ["newlevel", "L0", r0.choice([25, 45]), r0.choice(["<red>", "<blue><bold>", ""])]
+        lg = ["log", r0.choice(MODULES), "L0"]
+        shape = r0.below(4)
+        if shape == 0:
+            threads = [[mk], [lg]]
+        elif shape == 1:
+            threads = [[mk, lg], [["add", "DEBUG:c"], lg]]
+        elif shape == 2:
+            threads = [[["add", "DEBUG:c"]], [mk], [lg, lg]]
+        else:
+            threads = [[mk, ["level", "L0", "<green>"]], [lg], [["add", "INFO:c"], lg]]
+        prog = {"handlers": hs, "threads": threads}
+        dfs_schedules(prog, bound=2, limit=ctx.n(80, 800),
+                      on_run=lambda r, pre_, prog=prog: judge(r, pre_, prog, "dfs-levels"))
     nprog = ctx.n(30, 80) * boost
     per_prog = ctx.n(35, 200)
     for pi in range(nprog):
